@@ -24,7 +24,10 @@ from .common import Check, REPO, lean_driver, quiet_naunet, silenced, tier_and_s
 quiet_naunet()
 MODULES = ["NaunetProps.C20"]
 THEOREMS = ["Naunet.C20.parseList_showList", "Naunet.C20.parseKV_showKV", "Naunet.C20.config_roundtrip",
-            "Naunet.C20.parseKV_entry", "Naunet.C20.separator_splits"]
+            "Naunet.C20.parseKV_entry", "Naunet.C20.separator_splits", "Naunet.C20.parseRateMod_show", "Naunet.C20.dictOf_nodup",
+            "Naunet.C20.parseOdeTerm_show", "Naunet.C20.parseOdeOcc_show", "Naunet.C20.parseOdeMod_show",
+            "Naunet.C20.group_independent_of_cuts", "Naunet.C20.rate_piece_without_colon", "Naunet.C20.rate_value_with_comma",
+            "Naunet.C20.empty_piece_ends"]
 RULE = ("project descriptions (element / pseudo-element lists, replacement tables, surface / bulk / grain symbols, allowed and extra "
         "species, binding energies and yields, network files and formats, grain model, cooling, shielding, rate and ODE modifiers, "
         "solver / device / method) passed through `naunet init --render`, through Network.export + `naunet render`, and the bundled "
@@ -68,6 +71,7 @@ def gen_desc(rng, k):
         idx = rng.sample(range(1, len(lines) + 1), rng.randint(1, 2))
         # a replacement rate is any C expression; through the API it may also be a plain number (0.0 switches a reaction off)
         d["rate_modifier"] = {str(i): rng.choice(["1.0e-10", "2.0 * zeta", "1e-9*exp(-10.0/Tgas)", 0.0, 0, 2.5e-10, "0.0"]) for i in idx}
+        d["rm_kv"], d["rm_sep"], d["rm_cut"] = rng.choice([":", ":", ": ", " : "]), rng.choice([",", ",", ", ", " , "]), rng.randint(0, 1)
     if rng.random() < 0.4 and not upper and not d["allowed"]:
         # 1-4 terms over 1-2 targets, in a random order (so a target's terms may be split over several occurrences of the option)
         om, order = {}, []
@@ -168,7 +172,11 @@ def option_string(d, name):
     sh = isep.join(f"{k}{kv}{v}" for k, v in d["shielding"].items())
     bs = ",".join(f"{s}={sv}" for s, sv in d["binding"].items())
     ys = ",".join(f"{s}={sv}" for s, sv in d["yield"].items())
-    rm = ",".join(f"{r}:{rv}" for r, rv in d["rate_modifier"].items())
+    # `--rate-modifier` may be given several times too; blanks around its separators are not significant
+    rkv, rsep, rcut = d.get("rm_kv", ":"), d.get("rm_sep", ","), d.get("rm_cut", 0)
+    rpairs = list(d["rate_modifier"].items())
+    rgroups = [rpairs[:rcut], rpairs[rcut:]] if 0 < rcut < len(rpairs) else [rpairs]
+    rms = [rsep.join(f"{r}{rkv}{rv}" for r, rv in g) for g in rgroups if g]
     # `--ode-modifier` may be given several times; each occurrence holds `;`-terminated terms
     terms = d.get("ode_modifier_terms") or [(sname, fact, dep) for sname, expr in d["ode_modifier"].items()
                                             for fact, dep in zip(expr["factors"], expr["reactants"])]
@@ -185,13 +193,13 @@ def option_string(d, name):
             f"--yield='{ys}'", f"--grain-symbol='{kw['grain_symbol']}'", f"--grain-model='{d['grain_model']}'",
             f"--network-files='{files}'", f"--file-formats='{fmts}'", f"--heating='{','.join(d['heating'])}'",
             f"--cooling='{','.join(d['cooling'])}'", f"--shielding='{sh}'"]
-    if rm:
+    for rm in rms:
         opts.append(f"--rate-modifier='{rm}'")
     for om in oms:
         opts.append(f"--ode-modifier='{om}'")
     opts += [f"--solver={solver}", f"--device={device}", f"--method={method}", "--render", "--render-force"]
     strings = {"lists": [",".join(d["elements"]), ",".join(d["pseudo"]), ",".join(d["allowed"]), ",".join(d["required"]),
-                         ",".join(d["cooling"]), files, fmts], "tables": [rs, sh]}
+                         ",".join(d["cooling"]), files, fmts], "tables": [rs, sh], "ratemod": rms, "odemod": oms}
     return " ".join(opts), strings
 
 
@@ -336,6 +344,18 @@ def process(chk, descs, ex_cases):
         seq_steps += [{"op": "build", "id": f"S{k}", "desc": dict(d)},
                       {"op": "export", "id": f"S{k}", "dir": str(edir), "backend": list(BACK[d["method"]]), "tag": ["seq-export", k]}]
         seq_exports.append(k)
+    # a network built earlier and exported only after another network (with other element lists) has been built in between:
+    # the exported configuration describes the exported network, not the one built last
+    # (binding energies and yields are process-wide tables by design, so only projects without tables of their own take part)
+    plain = lambda d: not d.get("binding") and not d.get("yield")
+    late = next((k for k in range(1, len(descs)) if plain(descs[k]) and plain(descs[0]) and not descs[k]["replacement"]
+                 and (descs[k]["elements"], descs[k]["pseudo"]) != (descs[0]["elements"], descs[0]["pseudo"])), None)
+    if late is not None:
+        edir = chk.scratch / f"lateexport{late}" / "proj"
+        edir.parent.mkdir(parents=True)
+        seq_steps += [{"op": "build", "id": "LX", "desc": dict(descs[late])}, {"op": "build", "id": "L0", "desc": dict(descs[0])},
+                      {"op": "export", "id": "LX", "dir": str(edir), "backend": list(BACK[descs[late]["method"]]), "tag": ["late-export", late]}]
+        chk.hist["late-export"] += 1
     if seq_steps:
         jobs.append(("sequence", 0, {"steps": seq_steps}, None))
     # bundled examples through `example --dry`
@@ -457,10 +477,19 @@ def process(chk, descs, ex_cases):
             i_lists = [got["elements"], got["pseudo"], got["allowed"], got["required"], got["cooling"], got["files"], got["formats"]]
             m_tabs = [dict(t) if t is not None else None for t in ans["tables"]]
             i_tabs = [got["replacement"], got["shielding"]]
+            # modifiers: the model's dictionaries (insertion order included) against the tables `init` wrote
+            m_rm = [list(p) for p in ans["rate_modifier"]] if ans.get("rate_modifier") is not None else None
+            i_rm = [[k_, v_] for k_, v_ in got["rate_modifier"].items()]
+            m_om = [[t[0], t[1], t[2]] for t in ans["ode_modifier"]] if ans.get("ode_modifier") is not None else None
+            i_om = [[k_, list(v_["factors"]), [list(x) for x in v_["reactants"]]] for k_, v_ in got["ode_modifier"].items()]
             if m_lists != i_lists or m_tabs != i_tabs:
                 chk.corr_break("option-parsing", show, {"lists": m_lists, "tables": m_tabs}, {"lists": i_lists, "tables": i_tabs})
+            elif m_rm != i_rm or m_om != i_om:
+                chk.corr_break("modifier-option-parsing", show, {"rate_modifier": m_rm, "ode_modifier": m_om},
+                               {"rate_modifier": i_rm, "ode_modifier": i_om})
             else:
                 chk.traces += 1
+                chk.hist["modifier-options-compared"] += bool(i_rm or i_om)
 
 
 
